@@ -39,6 +39,26 @@ def rule_height_max_whole(ctx: Ctx) -> None:
     if len(hd) != 1:
         raise AnalysisError("height_max: the dictionary returned by height_dict was not found")
     H = hd[0]
+    # every value height_max returns is computed from the height function: a shortcut that answers from the shape of the graph alone (a
+    # constant for trees, say) ignores the emission order, on which the cut ranks depend
+    derived = {H}
+    grew = True
+    while grew:
+        grew = False
+        for a in ast.walk(fn):
+            if isinstance(a, ast.Assign) and isinstance(a.targets[0], ast.Name) and a.targets[0].id not in derived \
+                    and any(isinstance(x, ast.Name) and x.id in derived for x in ast.walk(a.value)):
+                derived.add(a.targets[0].id)
+                grew = True
+    for r in [x for x in ast.walk(fn) if isinstance(x, ast.Return)]:
+        if r.value is None or not any(isinstance(x, ast.Name) and x.id in derived for x in ast.walk(r.value)):
+            g = parent(r)
+            ctx.fail("height.max-whole", m, r,
+                     f"height_max returns `{short(r.value) if r.value is not None else 'None'}`" + (f" under `{short(g.test, 70)}`" if isinstance(g, ast.If) else "") +
+                     f" without consulting the height function: the emitter budget is the largest cut rank along the *given* vertex order (the path 0-2, 2-1, 1-3 "
+                     f"is a tree and needs 2), which no property of the unordered graph determines", func="height_max",
+                     construct="height_max: value not computed from the height function")
+            return
     mx = [c for c in ast.walk(fn) if isinstance(c, ast.Call) and isinstance(c.func, ast.Name) and c.func.id == "max" and c.args]
     if len(mx) != 1:
         raise AnalysisError("height_max: a single max(...) expected")
@@ -338,6 +358,7 @@ def _anc(n):
 
 
 KNOCKOUTS = [
+    Knockout("height-max-constant-for-trees", HEIGHT, sub_once("    h_dict = height_dict(x_matrix=x_matrix, z_matrix=z_matrix, graph=graph)\n    h_max =", "    if graph is not None and nx.is_tree(graph):\n        return 1\n    h_dict = height_dict(x_matrix=x_matrix, z_matrix=z_matrix, graph=graph)\n    h_max ="), "height.max-whole", "without consulting"),
     Knockout("height-max-over-first-half", "graphiq/backends/stabilizer/functions/height.py", sub_nth("    h_max = h_dict[max(h_dict, key=h_dict.get)]\n", "    h_max = max(h_dict[position] for position in range(-1, len(h_dict) // 2))\n", 0), "height.max-whole", "subset of the positions"),
     Knockout("rref-fast-path-clears-one-kind", STABF_, sub_once("    elif not pauli_y_list:  # pauli x and z exist in the column below pivot\n", "    elif not pauli_y_list:  # pauli x and z exist in the column below pivot\n        if pauli_x_list[0] == pivot[0] and pauli_z_list[0] == pivot[0] + 1:\n            for row_j in pauli_z_list[1:]:\n                tableau = tab_row_sum(tableau, pivot[0] + 1, row_j)\n            pivot = [pivot[0] + 2, pivot[1] + 1]\n            return tableau, pivot\n"), "rref.inline-step", "inline step"),
     Knockout("bit-packing-int64", "graphiq/utils/relabel_module.py", sub_once("        n_emit = height_max(graph=g)\n", "        n_emit = height_max(graph=g)\n        packed = adj.astype(int) @ (1 << np.arange(adj.shape[0]))\n"), "num.fixed-width", "emitter_sorted"),
